@@ -85,9 +85,16 @@ func script(r *gen.Rand, id string) []request {
 		}
 		return f
 	}
+	// Flatten orders batches of equal batch number by map iteration, so its result is not a
+	// function of the file once batch numbers can collide: after a batch was added or deleted,
+	// or a mutated body was sent, the script asks for no more flattening.
+	tainted := false
 	create := func() request {
 		f := mkFile()
 		invalid := r.Chance(1, 4)
+		if invalid {
+			tainted = true
+		}
 		if r.Bool() {
 			text, _ := gen.Write(f, r.Chance(1, 4))
 			if invalid {
@@ -122,6 +129,7 @@ func script(r *gen.Rand, id string) []request {
 		case 7:
 			out = append(out, request{name: "build", method: "GET", path: "/files/" + id + "/build"})
 		case 8:
+			tainted = true
 			f := mkFile()
 			var body []byte
 			if len(f.Batches) > 0 {
@@ -138,8 +146,13 @@ func script(r *gen.Rand, id string) []request {
 		case 10:
 			out = append(out, request{name: "get-batch", method: "GET", path: "/files/" + id + "/batches/" + gen.Pick(r, batchIDs)})
 		case 11:
+			tainted = true
 			out = append(out, request{name: "delete-batch", method: "DELETE", path: "/files/" + id + "/batches/" + gen.Pick(r, batchIDs)})
 		case 12:
+			if tainted {
+				out = append(out, request{name: "get", method: "GET", path: "/files/" + id})
+				break
+			}
 			out = append(out, request{name: "flatten", method: "POST", path: "/files/" + id + "/flatten", stamps: true})
 		case 13:
 			out = append(out, request{name: "segment-id", method: "POST", path: "/files/" + id + "/segment", header: map[string]string{"Content-Type": "application/json"}, body: []byte(`{}`), stamps: true})
